@@ -413,7 +413,8 @@ impl Ctx {
         };
         let stopped = self.stop.iter().any(|s| name.contains(s.as_str()));
         let intrinsic = inst.intrinsic_name().map(|s| s.to_string());
-        let body = if !stopped && intrinsic.is_none() && inst.has_body() {
+        let is_shim = matches!(inst.kind, InstanceKind::Shim);
+        let body = if !stopped && intrinsic.is_none() && (inst.has_body() || is_shim) {
             inst.body().map(|b| self.body(&b))
         } else {
             None
